@@ -6,8 +6,6 @@ package main
 
 import "strings"
 
-const fltOneAndHalf = uint64(0x3ff8000000000000)
-
 func mapValues(a Attrs, f func(AV, int) AV, depth int) Attrs {
 	if a == nil {
 		return nil
@@ -34,39 +32,6 @@ func mapValue(v AV, f func(AV, int) AV, depth int) AV {
 	return f(c, depth)
 }
 
-func truncNestedMaps(v AV, _ int) AV {
-	if v.K == KMap && len(v.KV) > 1 {
-		v.KV = v.KV[:1]
-	}
-	return v
-}
-
-func denanValue(v AV, _ int) AV {
-	if v.K == KDouble && isNaNBits(v.I) {
-		v.I = fltOneAndHalf
-	}
-	return v
-}
-
-func dezeroValue(v AV, _ int) AV {
-	if v.K == KDouble && v.I == negZero {
-		v.I = 0
-	}
-	return v
-}
-
-// emptyArraysInMaps empties every array that sits inside a map value.
-func emptyArraysInMaps(v AV, _ int) AV {
-	if v.K == KMap {
-		for i := range v.KV {
-			if v.KV[i].V.K == KSlice {
-				v.KV[i].V = AV{K: KSlice}
-			}
-		}
-	}
-	return v
-}
-
 func stringifyValue(v AV, _ int) AV {
 	switch v.K {
 	case KDouble:
@@ -74,7 +39,11 @@ func stringifyValue(v AV, _ int) AV {
 	case KBytes:
 		return AV{K: KStr, S: "y" + hb(v.Y)}
 	case KMap:
-		return AV{K: KStr, S: "m"}
+		// injective: two different maps must not become the same string (the detriggered input would
+		// then make the sorting mode merge resources that the original kept apart)
+		var sb strings.Builder
+		rAttrs(&sb, v.KV, false)
+		return AV{K: KStr, S: "m" + sb.String()}
 	}
 	return v
 }
@@ -102,12 +71,6 @@ func forPointsM(t Metrics, f func(m *Met, p *Pt)) Metrics {
 	return c
 }
 
-func dz(x *uint64) {
-	if *x == negZero {
-		*x = 0
-	}
-}
-
 type mclass struct {
 	name      string
 	opts      string // writer options of the class ("" = default); the detriggered run uses the default
@@ -128,17 +91,6 @@ func in(s string, set ...string) bool {
 
 var mclasses = []mclass{
 	{
-		name:      "nested-map",
-		setup:     func(g *G) { g.allowNestedMap2 = true },
-		detrigger: func(t Metrics) Metrics { return forAttrsM(t, truncNestedMaps) },
-		sig: func(c, f string, _ [4]verdict) string {
-			if in(f, "resource", "scope", "metric", "attributes", "exemplars") {
-				return "nested-map-index"
-			}
-			return ""
-		},
-	},
-	{
 		name:  "summary-nrv",
 		setup: func(g *G) { g.flagSummary = true },
 		detrigger: func(t Metrics) Metrics {
@@ -151,73 +103,6 @@ var mclasses = []mclass{
 		sig: func(c, f string, _ [4]verdict) string {
 			if f == "flags" {
 				return "summary-no-recorded-value"
-			}
-			return ""
-		},
-	},
-	{
-		name:  "nan-bounds",
-		setup: func(g *G) { g.nanBounds = true },
-		detrigger: func(t Metrics) Metrics {
-			return forPointsM(t, func(m *Met, p *Pt) {
-				for i := range p.Bounds {
-					if isNaNBits(p.Bounds[i]) {
-						p.Bounds[i] = fltOneAndHalf
-					}
-				}
-			})
-		},
-		sig: func(c, f string, _ [4]verdict) string {
-			if f == "value" {
-				return "nan-bounds-merge"
-			}
-			return ""
-		},
-	},
-	{
-		name:      "nan-attr",
-		setup:     func(g *G) { g.allowNaNAttr = true },
-		detrigger: func(t Metrics) Metrics { return forAttrsM(t, denanValue) },
-		sig: func(c, f string, _ [4]verdict) string {
-			if in(f, "resource", "scope", "metric", "attributes") {
-				return "nan-attr-merge"
-			}
-			return ""
-		},
-	},
-	{
-		name:  "neg-zero",
-		setup: func(g *G) { g.allowNegZero, g.negZeroBounds = true, true },
-		detrigger: func(t Metrics) Metrics {
-			c := forAttrsM(t, dezeroValue)
-			return forPointsM(c, func(m *Met, p *Pt) {
-				if p.VT == 2 {
-					dz(&p.V)
-				}
-				dz(&p.Sum)
-				dz(&p.Min)
-				dz(&p.Max)
-				dz(&p.ZeroThreshold)
-				for i := range p.Bounds {
-					dz(&p.Bounds[i])
-				}
-				for i := range p.Quantiles {
-					dz(&p.Quantiles[i][0])
-					dz(&p.Quantiles[i][1])
-				}
-				for i := range p.Ex {
-					if p.Ex[i].VT == 2 {
-						dz(&p.Ex[i].V)
-					}
-				}
-			})
-		},
-		sig: func(c, f string, vs [4]verdict) string {
-			// what is left after repo commits 05846e0 / 59db810: Float64Array.CopyFromSlice still compares
-			// with slices.Equal (Go ==), so histogram bounds that differ from the previous point's only in
-			// the sign of a zero are not stored (unsorted writer; the sorted one builds a new Metric per point)
-			if strings.HasPrefix(c, "u") && f == "value" {
-				return "negzero-bounds-not-stored"
 			}
 			return ""
 		},
@@ -277,22 +162,6 @@ var mclasses = []mclass{
 		},
 	},
 	{
-		// not a converter defect (codec, C01): AnyValueArray.fixParent does not re-point its elements. When an
-		// attribute list grows beyond its capacity its elements move in memory; a map value (KeyValueList is
-		// embedded by value) moves with them, and the elements of an array inside that map keep pointing at
-		// the old modified-mask: changes to them are no longer marked, so they are not encoded and the reader
-		// keeps the previous record's array elements.
-		name:      "array-in-map",
-		setup:     func(g *G) { g.allowArrayInMap = true },
-		detrigger: func(t Metrics) Metrics { return forAttrsM(t, emptyArraysInMaps) },
-		sig: func(c, f string, _ [4]verdict) string {
-			if in(f, "resource", "scope", "metric", "attributes", "exemplars") {
-				return "nested-array-stale-after-relocation"
-			}
-			return ""
-		},
-	},
-	{
 		// not a converter defect: with RestartDictionaries every Write restarts the frame and resets the
 		// dictionaries; a shared (frozen) resource/scope/metric that comes back is then re-encoded without
 		// the entries of its nested maps. Only the sorted converter shares structs by pointer.
@@ -327,28 +196,6 @@ type tclass struct {
 }
 
 var tclasses = []tclass{
-	{
-		name:      "nested-map",
-		setup:     func(g *G) { g.allowNestedMap2 = true },
-		detrigger: func(t Traces) Traces { return forAttrsT(t, truncNestedMaps) },
-		sig: func(m, f string, _ [2]verdict) string {
-			if strings.HasSuffix(f, "attributes") {
-				return "nested-map-index"
-			}
-			return ""
-		},
-	},
-	{
-		name:      "array-in-map", // see the metrics class of the same name
-		setup:     func(g *G) { g.allowArrayInMap = true },
-		detrigger: func(t Traces) Traces { return forAttrsT(t, emptyArraysInMaps) },
-		sig: func(m, f string, _ [2]verdict) string {
-			if strings.HasSuffix(f, "attributes") {
-				return "nested-array-stale-after-relocation"
-			}
-			return ""
-		},
-	},
 	{
 		name:  "cmpval-kinds",
 		setup: func(g *G) { g.resAllKinds = true },
@@ -407,17 +254,6 @@ var tclasses = []tclass{
 		sig: func(m, f string, _ [2]verdict) string {
 			if m == "s" && in(f, "resource.dropped", "scope.dropped") {
 				return "sorted-merge-ignores-dropped-count"
-			}
-			return ""
-		},
-	},
-	{
-		name:      "neg-zero",
-		setup:     func(g *G) { g.allowNegZero = true },
-		detrigger: func(t Traces) Traces { return forAttrsT(t, dezeroValue) },
-		sig: func(m, f string, _ [2]verdict) string {
-			if strings.HasSuffix(f, "attributes") {
-				return "negzero-setter-drop"
 			}
 			return ""
 		},
